@@ -523,6 +523,19 @@ func Main(t *testing.T, c *Check) {
 	}
 	dump := os.Getenv("VERIF_DUMP")
 	deadline := start.Add(budget)
+	// VERIF_INFLIGHT=<dir>: every worker leaves the scenario it is about to run in <dir>/w<k>.json (as a replay
+	// file), so that a run which ends the whole process (log.Fatal / os.Exit in the code under test) can be
+	// replayed by the supervisor
+	inflight := os.Getenv("VERIF_INFLIGHT")
+	mark := func(w int, s *Scn) {
+		if inflight == "" {
+			return
+		}
+		rf := ReplayFile{Engine: "stepsim", Property: c.ID, Seed: seed, Worker: w, Scenario: s,
+			Violation: &Violation{Oracle: c.ID + "/process-ended-while-running-this-scenario", Sig: c.ID + "/process-ended", Step: -1, Observed: "the check process ended while this scenario was running", Expected: "the scenario completes"}}
+		b, _ := json.Marshal(rf)
+		_ = os.WriteFile(filepath.Join(inflight, fmt.Sprintf("w%d.json", w)), b, 0o644)
+	}
 
 	stats := make([]*workerStats, workers)
 	dumps := make([][]string, workers)
@@ -589,6 +602,7 @@ func Main(t *testing.T, c *Check) {
 			}
 			if w == 0 {
 				for i, s := range c.Directed {
+					mark(w, s)
 					if !handle(s, safeRun(c, t, s), fmt.Sprintf("directed%d", i)) {
 						return
 					}
@@ -623,6 +637,7 @@ func Main(t *testing.T, c *Check) {
 			}
 			for n := 0; (maxN == 0 || n < maxN) && time.Now().Before(deadline) && !stopped(); n++ {
 				s := c.Gen(rng, tier)
+				mark(w, s)
 				if !handle(s, safeRun(c, t, s), fmt.Sprintf("w%d.%d", w, n)) {
 					return
 				}
